@@ -12,6 +12,8 @@ use crate::front::Project;
 use crate::rng::Rng;
 
 const MAX_TRIPS: usize = 4000;
+/// in `wild` programs a loop may also wrap around the 32-bit range once or twice before its guard fails
+const MAX_TRIPS_WILD: usize = 60_000;
 
 #[derive(Clone, Copy, PartialEq, Debug)]
 enum Cmp {
@@ -77,8 +79,41 @@ fn small(rng: &mut Rng) -> i32 {
   *rng.pick(&[0, 1, -1, 2, -2, 3, 5, 7, -7, 10, 16, 31, 100])
 }
 
+/// a pure counting loop that runs into the end of the 32-bit range: the bound lies within one
+/// stride of INT_MIN (descending) / INT_MAX (ascending), so the counter wraps around before the
+/// guard can fail, and the loop takes one or more laps
+fn boundary_lap_spec(rng: &mut Rng) -> LoopSpec {
+  let mag = *rng.pick(&[100_003i32, 249_300, 1_000_003, 65_537, 7, 3, 2]);
+  let down = rng.bool();
+  let stride = if down { -mag } else { mag };
+  let slack = rng.below(mag.min(1000) as usize) as i32;
+  let bound = if down { i32::MIN.wrapping_add(slack) } else { i32::MAX.wrapping_sub(slack) };
+  let cmp = if down { *rng.pick(&[Cmp::Gt, Cmp::Ge]) } else { *rng.pick(&[Cmp::Lt, Cmp::Le]) };
+  let trips_before_wrap = 1 + rng.below(600) as i32;
+  let start = bound.wrapping_sub(stride.wrapping_mul(trips_before_wrap)).wrapping_add(rng.range(-3, 3) as i32);
+  LoopSpec {
+    cmp,
+    i_on_left: rng.bool(),
+    negated: rng.chance(1, 6),
+    start,
+    stride,
+    bound,
+    bound_is_param: false,
+    opaque_start: rng.chance(1, 3),
+    derived: None,
+    derived_use: 0,
+    accs: 1 + rng.below(2),
+    acc_uses_i: false,
+    ret: *rng.pick(&[0u8, 0, 2, 3]),
+    swap_branches: rng.chance(1, 6),
+  }
+}
+
 fn pick_spec(rng: &mut Rng, wild: bool) -> LoopSpec {
-  let strides: &[i32] = if wild { &[1, -1, 2, -2, 3, -3, 7, -7, 1 << 29, -(1 << 29), 1_000_000_000, -1_000_000_000] } else { &[1, -1, 2, -2, 3, -3, 7, -7] };
+  if wild && rng.chance(1, 6) {
+    return boundary_lap_spec(rng);
+  }
+  let strides: &[i32] = if wild { &[1, -1, 2, -2, 3, -3, 7, -7, 1 << 29, -(1 << 29), 1_000_000_000, -1_000_000_000, 100_003, -100_003, 249_300, -249_300, 1_000_003, -1_000_003] } else { &[1, -1, 2, -2, 3, -3, 7, -7] };
   let anchors: &[i32] = if wild { &[0, 7, -7, 1 << 30, -(1 << 30), i32::MAX, i32::MIN, i32::MAX - 9, i32::MIN + 9, 100, -100] } else { &[0, 7, -7, 100, -100, 1000, -28, 64] };
   let cmp = *rng.pick(&[Cmp::Lt, Cmp::Le, Cmp::Gt, Cmp::Ge, Cmp::Ne, Cmp::Lt, Cmp::Gt, Cmp::Le, Cmp::Ge, Cmp::Eq]);
   let stride = *rng.pick(strides);
@@ -126,9 +161,9 @@ fn pick_spec(rng: &mut Rng, wild: bool) -> LoopSpec {
   }
 }
 
-fn trips_of(s: &LoopSpec) -> Option<usize> {
+fn trips_of(s: &LoopSpec, wild: bool) -> Option<usize> {
   let mut i = s.start;
-  for t in 0..=MAX_TRIPS {
+  for t in 0..=(if wild { MAX_TRIPS_WILD } else { MAX_TRIPS }) {
     if !s.cmp.eval(i, s.bound) {
       return Some(t);
     }
@@ -270,12 +305,12 @@ pub fn generate(seed: u64, wild: bool) -> LoopProgram {
   let mut shapes = Vec::new();
   for k in 0..n {
     let mut spec = pick_spec(&mut rng, wild);
-    let mut trips = trips_of(&spec);
+    let mut trips = trips_of(&spec, wild);
     let mut tries = 0;
     // loops that never enter their body are kept only now and then
     while (trips.is_none() || trips == Some(0) && !rng.chance(1, 6)) && tries < 80 {
       spec = pick_spec(&mut rng, wild);
-      trips = trips_of(&spec);
+      trips = trips_of(&spec, wild);
       tries += 1;
     }
     if trips.is_none() {
